@@ -14,7 +14,7 @@
 (* cases.ndjson; Init picks one, and one entry of it (the script's entry   *)
 (* label or a user label).                                                 *)
 (***************************************************************************)
-EXTENDS Naturals, Sequences, FiniteSets, TLC, Json, PoryLang, ScriptVM
+EXTENDS Naturals, Sequences, FiniteSets, TLC, Json, PoryLang, ScriptVM, Emission
 
 Cases == ndJsonDeserialize("cases.ndjson")
 
@@ -77,12 +77,27 @@ VMRead ==
                /\ v' = VStep(A, v, a)
                /\ ss' = {} /\ vs' = {}
 
+(* Inline data.  A source token "@data:<k>" stands for the inline text or moves() written   *)
+(* at that argument (P.sdata); it agrees with a target token that names a label whose       *)
+(* definition in the real output (A.vdefs) is what Emission says that text / list becomes.  *)
+DataMatches(d, def) ==
+    IF d.kind = "text"
+    THEN def.kind = "text" /\ def.dir = Directive(d.type) /\ def.lines = ExpectedTextLines(d.parts, d.type)
+    ELSE d.kind = "moves" /\ def.kind = "moves" /\ def.rle = ExpectedList(d.items, "step_end")
+TokMatch(a, b) ==
+    \/ a = b
+    \/ a \in DOMAIN P.sdata /\ b \in DOMAIN A.vdefs /\ DataMatches(P.sdata[a], A.vdefs[b])
+ObsEq(so, vo) ==
+    IF so.k = "cmd" /\ vo.k = "cmd"
+    THEN Len(so.toks) = Len(vo.toks) /\ \A i \in 1..Len(so.toks) : TokMatch(so.toks[i], vo.toks[i])
+    ELSE so = vo
+
 (* Both sides are at a command or an ending. *)
 Sync ==
     /\ verdict = "run"
     /\ SLoc(P, s) = "" /\ VLoc(A, v) = ""
     /\ UNCHANGED ci
-    /\ IF SObs(P, s) # VObs(A, v)
+    /\ IF ~ObsEq(SObs(P, s), VObs(A, v))
        THEN verdict' = "diverged" /\ UNCHANGED <<s, v, memo, ss, vs>>
        ELSE IF s.at = "done"
        THEN verdict' = "ok" /\ UNCHANGED <<s, v, memo, ss, vs>>
